@@ -688,6 +688,9 @@ fn check_tape_e(tape: &[u8], gates: &Gates, stats: &mut Stats, counting: bool, s
         stats.class(&format!("e.syntax-error.{}", how));
     }
     let fail = |kind: &str, detail: String| Failure::new("syntax-error-label", kind, detail, json!({"text": text, "message": msg}));
+    if d.primary.file_id.to_string() != "c05e.st" {
+        return Err(fail("label-names-another-file", format!("P0002 label names the file {:?}, the text was parsed as \"c05e.st\"", d.primary.file_id.to_string())));
+    }
     if e > text.len() || s > e || !text.is_char_boundary(s) || !text.is_char_boundary(e) {
         return Err(fail("label-outside-file", format!("P0002 label {}..{} is not inside the text ({} bytes)", s, e, text.len())));
     }
